@@ -60,6 +60,9 @@ class Prop(Check):
         "Proc.C33_walk_located",
         "Proc.C33_load_first_model",
         "Proc.C33_load_fill_text",
+        "Proc.C33_match_first_raise",
+        "Proc.C33_match_fails_iff",
+        "Proc.C33_match_fill_text",
     ]
     DRIVER = "Drivers/Proc.lean"
     QUICK_CASES = 390
@@ -76,7 +79,9 @@ class Prop(Check):
                 "processor (Proc.walkE / loadE: the walk stops at the first raising call); tie X: op proc_error — object "
                 "targets: model state at the first processor call of every walked model + registrations + texts + object "
                 "spans + which (rule, object) raises -> the failing call, the calls made before it, and the error "
-                "location; match targets: text + offset of the match -> error location; "
+                "location; model.py process_match (Proc.matchE: post-order calls, each with the line/col of its own "
+                "node); match targets: text + the match parse tree recorded by the generator + which node's processor "
+                "raises -> the failing call, the calls of that tree made before it, and the error location; "
                 "not exhibited: exceptions raised while a processor error is being handled")
     ASSUMPTIONS = ["exactly one processor call of the load fails", "processors raise fresh exception objects"]
 
@@ -198,6 +203,8 @@ class Prop(Check):
                 obs["outcome"] = "other"
                 obs["err"] = {"cls": type(e).__name__, "msg": str(e)[:200]}
             obs["calls"] = sum(1 for e in run.events if e[0] in ("proc", "match"))
+            if tgt["kind"] == "match" and obs["raised"]:
+                obs["mcalls"] = [e[1] for e in run.events if e[0] == "match"]
             if tgt["kind"] == "obj" and obs["raised"]:
                 # model state at the first processor call of each walked model (in walk order), class table
                 obs["procs"] = [[e[1], e[2]] for e in run.events if e[0] == "proc"]
@@ -255,17 +262,15 @@ class Prop(Check):
             return None
         spec = case["spec"]
         tgt = spec["target"]
-        walk = src = None
+        walk = mtree = None
         if tgt["kind"] == "obj":
             kind = "obj"
             walk = self.walk_req(case, obs)
         else:
-            # the match node: text of the (single) model file, offset recorded by the renderer
-            rend = pg.render(case, case["layout"])
-            k, _rule, start, txt = [m for m in rend.matches if m[1] == tgt["rule"]][tgt["n"]]
-            fn, _line, _col, length, _root = self.expected_site(case)
-            src = {"f": self.fid(fn), "text": rend.texts[k], "pos": start, "end": start + length}
+            # the match node: text of the model file, the match parse tree the renderer recorded; which node's
+            # processor fails and where that node starts is determined by the model of process_match
             kind = "mtch"
+            mtree = self.mtree_req(case)
         if spec["exc"] in ("value", "key"):
             raised = "other"
         else:
@@ -276,8 +281,45 @@ class Prop(Check):
         if walk is not None:
             req["walk"] = walk
         else:
-            req["src"] = src
+            req["mtree"] = mtree
         return req
+
+    def mnum(self, case, name):
+        names = [m["name"] for m in case["schema"]["matches"]] + list(pg.BASES)
+        return names.index(name) if name in names else 900  # 900: a string match (no rule, no processor)
+
+    def mtree_info(self, case):
+        """(file, tree index, trees of the file, target rule, target offset) of the failing match-processor call."""
+        rend = pg.render(case, case["layout"])
+        tgt = case["spec"]["target"]
+        k, rule, start, _txt = [m for m in rend.matches if m[1] == tgt["rule"]][tgt["n"]]
+        trees = [t for fk, t in rend.mtrees if fk == k]
+        for i, t in enumerate(trees):
+            if (rule, start) in self.mflat(t):
+                return rend, k, i, trees, rule, start
+        return rend, k, None, trees, rule, start
+
+    @staticmethod
+    def mflat(t):
+        """calls of a match tree in post-order: (rule, offset)"""
+        out = []
+        for kid in t[2] or []:
+            out.extend(Prop.mflat(kid))
+        out.append((t[0], t[1]))
+        return out
+
+    def mtree_req(self, case):
+        rend, k, i, trees, rule, start = self.mtree_info(case)
+        fn, _line, _col, _length, _root = self.expected_site(case)
+
+        def enc(t):
+            head = [self.mnum(case, t[0]), t[1]]
+            return head if t[2] is None else head + [[enc(x) for x in t[2]]]
+
+        tree = enc(trees[i]) if i is not None else [900, 0]
+        return {"tree": tree, "raise": [self.mnum(case, rule), start],
+                "reg": sorted({self.mnum(case, r) for r in case.get("match_reg", [])}),
+                "f": self.fid(fn), "text": rend.texts[k]}
 
     def walk_req(self, case, obs):
         """the walk up to the failing call, replayed by `Proc.loadE`: every walked model as it was at its first
@@ -320,6 +362,25 @@ class Prop(Check):
                 return f"failing call: implementation {calls[-1:]}, model {fail['call']}"
             if fail["before"] != calls[:-1]:
                 return f"calls before the failing call: implementation {calls[:-1]}, model {fail['before']}"
+        if case["spec"]["target"]["kind"] == "match":
+            if "nofail" in out:
+                return f"the match processor raised on {case['spec']['target']}, in the model no call of the tree raises"
+            rend, _k, i, trees, rule, start = self.mtree_info(case)
+            fail = out.get("fail")
+            if fail is None or i is None:
+                return f"model answer without the failing call: {out} (tree {i})"
+            if fail["call"] != [self.mnum(case, rule), start]:
+                return f"failing match-processor call: model {fail['call']}, target {[self.mnum(case, rule), start]}"
+            reg = set(case.get("match_reg", []))
+            earlier = sum(1 for t in trees[:i] for (r, _p) in self.mflat(t) if r in reg)
+            seen = obs.get("mcalls", [])
+            want = [r for (r, p) in self.mflat(trees[i]) if r in reg]
+            want = want[:len(fail["before"])]
+            if [self.mnum(case, r) for r in want] != [c[0] for c in fail["before"]]:
+                return f"calls before the failing one: model {fail['before']}, tree {want}"
+            if seen[:-1][earlier:] != want or seen[-1:] != [rule]:
+                return (f"match-processor calls of the failing match: implementation {seen[earlier:]}, "
+                        f"model {want + [rule]}")
         if "other" in out:
             got = obs["outcome"]
             return None if got == "other" else f"implementation outcome {got} {obs.get('err')}, model: the exception passes unchanged"
